@@ -57,7 +57,9 @@ func genTrace(seed int64, kind int) ([][]byte, string, *cluster.Cluster, error) 
 	}
 	// the powers follow address order, not the order given: read them back
 	o := cluster.AdvOptions{Steps: 900, TargetHeight: 3, PLoss: 0.05, PDup: 0.1, PTimeout: 0.25, PByz: 1.0, Slow: -1}
-	switch kind % 4 {
+	switch kind % 6 {
+	case 4, 5: // lock stress
+		o.WithholdR0, o.PrecommitLoss, o.ByzOldRounds, o.PTimeout, o.PDup = 0.9, 0.65, true, 0.6, 0.25
 	case 1:
 		o.PTimeout = 1.5 // timeout-happy: many round changes
 	case 2:
@@ -88,7 +90,7 @@ func run(c *core.Ctx) {
 	o.Trusted = []string{"TLC", "the transcription ConsensusNode.tla (checked against the code by conformance on every trace)", "hook H1 (executes the bodies of receiveRoutine's select cases)"}
 
 	// ---- (2) the code: trace validation --------------------------------------------
-	nTraces := c.Pick(60, 1200)
+	nTraces := c.Pick(90, 1500)
 	var bundle bytes.Buffer
 	var infos []traceInfo
 	line := 0
